@@ -33,6 +33,9 @@ int vy_set_recovery_match (void *g, int v);
 int vy_parse (void *g, vy_read_token_t, vy_syntax_error_t, vy_alloc_t, vy_free_t,
 	      struct yaep_tree_node **root, int *ambiguous_p);
 void vy_free_tree (struct yaep_tree_node *root, vy_free_t, vy_termcb_t);
+/* hash table statistics of the containers behind the binding */
+long vy_all_searches (void);
+long vy_all_collisions (void);
 #ifdef __cplusplus
 }
 #endif
